@@ -36,7 +36,7 @@ def text(n, indent, comma=''):
     pad = '  ' * indent
     k = n[0]
     if k == 'L':
-        ex = '1' if n[1] == 'int' else '"s"'
+        ex = {'int': '1', 'str': '"s"', 'arr': '[]', 'obj': '{}'}[n[1]]      # arr/obj: an empty container that carries an `or` rule
         rules = []
         if n[2] is not None:
             rules.append('type: "%s"' % tname(n[2]))
@@ -46,7 +46,7 @@ def text(n, indent, comma=''):
                 if a[0] == 'N':
                     alts.append('"%s"' % tname(a[1]))
                 elif a[1] is None:
-                    alts.append('{type: "integer", min: 0}' if n[1] == 'int' else '{type: "string", minLength: 1}')
+                    alts.append({'int': '{type: "integer", min: 0}', 'str': '{type: "string", minLength: 1}', 'arr': '"array"', 'obj': '"object"'}[n[1]])
                 else:
                     alts.append('{type: "%s", nullable: true}' % tname(a[1]))
             rules.append('or: [%s]' % ', '.join(alts))
@@ -226,6 +226,11 @@ class Prop:
             'or-name': ('O', [], None, [(None, 'a', ('L', 'int', None, [('S', None), ('N', 2)]))]),
             'or-set': ('O', [], None, [(None, 'a', ('L', 'int', None, [('S', None), ('S', 2)]))]),
             'or-set-only': ('O', [], None, [(None, 'a', ('L', 'int', None, [('S', 1), ('S', 2)]))]),
+            # an empty container with an `or` rule whose rule-set alternatives name types (a bare name is refused there: 1108)
+            'or-set-on-empty-array': ('O', [], None, [(None, 'a', ('L', 'arr', None, [('S', None), ('S', 2)]))]),
+            'or-set-on-empty-object': ('O', [], None, [(None, 'a', ('L', 'obj', None, [('S', 1), ('S', None), ('S', 2)]))]),
+            'or-set-on-empty-root': ('L', 'arr', None, [('S', None), ('S', 1)]),
+            'or-set-on-empty-item': ('A', [('L', 'obj', None, [('S', None), ('S', 2)]), ('L', 'int', None, [])]),
             'quoted-key-like-type': ('O', [], None, [(None, '@t3', ('M', [1]))]),
             'quoted-key-and-shortcut': ('O', [], None, [(None, '@t3', ('M', [1])), (3, None, ('M', [2]))]),
             'quoted-key-like-type-deep': ('O', [], None, [(None, '@t2', ('O', [], None, [(None, '@t1', ('A', [('L', 'int', 1, [])]))]))]),
